@@ -773,7 +773,9 @@ let apply_tx (eng : Engine.db) (spec : Spec.sdb) (txn : int) (ops : mop list) : 
     | Engine.Ok e ->
         (* the tier-B statement itself, evaluated: abs_db after = sem_tx ops (abs_db before) = the reference machine's root *)
         let lhs = EngineAbs.abs_db e and rhs = EngineAbs.sem_tx eops (EngineAbs.abs_db eng) in
-        if lhs <> rhs then Error "statement: abs_db (run_tx st ops) <> sem_tx ops (abs_db st)"
+        if not (EngineRefines.readableb e) then Error "hypothesis of the tier-B theorem: the new state is not `readable`"
+        else if not (EngineRefines.db_alloc_okb e) then Error "unproved half of the invariant: the new state fails the allocation check db_alloc_okb"
+        else if lhs <> rhs then Error "statement: abs_db (run_tx st ops) <> sem_tx ops (abs_db st)"
         else if rhs <> committed' then Error "statement: sem_tx (expand ops) differs from the handle-based reference machine"
         else Ok e
     | Engine.Panic m -> Error ("panic: " ^ string_of_coq m)
